@@ -19,8 +19,8 @@
      ReconsumptionBound   no token index is consumed more than R times              (C16)
      LookupIsInnermost    a lookup answers with the innermost binding               (C04)
      ClassFrozenAtLex     the class of an ID/TYPEID token is the lookup made for it (C04)
-     LookaheadSafe        a name is never registered while an identifier token with that
-                          spelling sits unconsumed in the buffer                    (C04)
+     LookaheadSafe        in an accepted program a name is never registered while an identifier
+                          token with that spelling sits unconsumed in the buffer    (C04)
      ScopeBraceAgreement  #scopes = 1 + #'{' lexed - #'}' lexed after every token      (C04,C18)
      RegisterClash        a registration raises iff the scope holds the other kind
      FreshStart           parse() starts from the initial front-end state           (C12)
@@ -34,8 +34,8 @@ CONSTANT R
 
 Traces == JsonDeserialize(IOEnv.TRACES)
 
-VARIABLES tid, l, buf, idx, uses, stk, brk, bd, pend, lst, eof, failed, errloc
-pvars == <<tid, l, buf, idx, uses, stk, brk, bd, pend, lst, eof, failed, errloc>>
+VARIABLES tid, l, buf, idx, uses, stk, brk, bd, pend, lst, eof, failed, errloc, unsafe
+pvars == <<tid, l, buf, idx, uses, stk, brk, bd, pend, lst, eof, failed, errloc, unsafe>>
 
 T    == Traces[tid]
 Ev   == T.ev[l]
@@ -60,28 +60,28 @@ BracketStep(b, ty) ==
 
 PInit == /\ tid \in 1..Len(Traces) /\ l = 1
          /\ buf = <<>> /\ idx = 0 /\ uses = <<>> /\ stk = << {} >> /\ brk = <<>> /\ bd = 0
-         /\ pend = <<"none">> /\ eof = FALSE /\ failed = FALSE /\ errloc = <<>>
+         /\ pend = <<"none">> /\ eof = FALSE /\ failed = FALSE /\ errloc = <<>> /\ unsafe = FALSE
          /\ lst = InitState(Traces[tid].file)
 
 \* FreshStart (C12): the lexer state logged right after parse() re-initialised it
 Begin == /\ Is("begin") /\ l = 1
          /\ Ev.st.pos = 0 /\ Ev.st.line = 1 /\ Ev.st.lstart = 0 /\ Ev.st.file = T.file /\ Ev.st.pend = <<>>
-         /\ Adv /\ UNCHANGED <<buf, idx, uses, stk, brk, bd, pend, lst, eof, failed, errloc>>
+         /\ Adv /\ UNCHANGED <<buf, idx, uses, stk, brk, bd, pend, lst, eof, failed, errloc, unsafe>>
 
 Push == /\ Is("push") /\ ~failed /\ pend = <<"none">>
         /\ stk' = Append(stk, {}) /\ Ev.d = Len(stk) + 1
         /\ pend' = <<"brace", "LBRACE">>
-        /\ Adv /\ UNCHANGED <<buf, idx, uses, brk, bd, lst, eof, failed, errloc>>
+        /\ Adv /\ UNCHANGED <<buf, idx, uses, brk, bd, lst, eof, failed, errloc, unsafe>>
 Pop  == /\ Is("pop") /\ ~failed /\ pend = <<"none">>
         /\ IF Len(stk) > 1
            THEN /\ ~Ev.raised /\ stk' = SubSeq(stk, 1, Len(stk)-1) /\ Ev.d = Len(stk) - 1
                 /\ pend' = <<"brace", "RBRACE">> /\ UNCHANGED failed
            ELSE /\ Ev.raised /\ failed' = TRUE /\ UNCHANGED <<stk, pend>>      \* a '}' that closes nothing
-        /\ Adv /\ UNCHANGED <<buf, idx, uses, brk, bd, lst, eof, errloc>>
+        /\ Adv /\ UNCHANGED <<buf, idx, uses, brk, bd, lst, eof, errloc, unsafe>>
 Look == /\ Is("look") /\ ~failed /\ pend = <<"none">>
         /\ Ev.ans = Lookup(stk, Len(stk), Ev.name)                              \* LookupIsInnermost
         /\ pend' = <<"look", Ev.name, Ev.ans>>
-        /\ Adv /\ UNCHANGED <<buf, idx, uses, stk, brk, bd, lst, eof, failed, errloc>>
+        /\ Adv /\ UNCHANGED <<buf, idx, uses, stk, brk, bd, lst, eof, failed, errloc, unsafe>>
 
 \* one token() call seen from the parser.  The cursor machine is asked with the typedef names
 \* that were visible when the call started: a pending "look" already holds the answer given.
@@ -89,7 +89,7 @@ CallNow == Call(T.text, lst, TypeNames(stk))
 Tok  == /\ Is("tok") /\ ~eof
         /\ IF failed
            THEN /\ Ev.exc # ""                                                   \* the callback's exception propagates
-                /\ UNCHANGED <<buf, uses, brk, bd, pend, lst, eof, failed, errloc>>
+                /\ UNCHANGED <<buf, uses, brk, bd, pend, lst, eof, failed, errloc, unsafe>>
            ELSE LET r == CallNow IN
                 IF r.err # <<>>
                 THEN /\ Ev.exc # "" /\ Ev.errs # <<>>                             \* lexer errors raise inside parse()
@@ -118,20 +118,20 @@ Tok  == /\ Is("tok") /\ ~eof
                              /\ bd' = IF r.tok[1] = "LBRACE" THEN bd + 1 ELSE IF r.tok[1] = "RBRACE" THEN bd - 1 ELSE bd
                              /\ Len(stk) = 1 + bd'                                \* ScopeBraceAgreement
                              /\ UNCHANGED <<eof, failed>>
-        /\ Adv /\ UNCHANGED <<idx, stk>>
+        /\ Adv /\ UNCHANGED <<idx, stk, unsafe>>
 
 Nxt  == /\ Is("next") /\ ~failed
         /\ Ev.ix = idx /\ idx < Len(buf)                                          \* IndexInRange
         /\ idx' = idx + 1 /\ uses' = [uses EXCEPT ![idx+1] = @ + 1]
         /\ uses'[idx+1] <= R                                                      \* ReconsumptionBound
-        /\ Adv /\ UNCHANGED <<buf, stk, brk, bd, pend, lst, eof, failed, errloc>>
+        /\ Adv /\ UNCHANGED <<buf, stk, brk, bd, pend, lst, eof, failed, errloc, unsafe>>
 Reset == /\ Is("reset") /\ ~failed
          /\ Ev.frm = idx /\ Ev.to <= idx /\ Ev.to >= 0 /\ idx' = Ev.to            \* ResetBackwards
-         /\ Adv /\ UNCHANGED <<buf, uses, stk, brk, bd, pend, lst, eof, failed, errloc>>
+         /\ Adv /\ UNCHANGED <<buf, uses, stk, brk, bd, pend, lst, eof, failed, errloc, unsafe>>
 Reg  == /\ Is("reg") /\ ~failed /\ pend = <<"none">>
         /\ Ev.d = Len(stk) /\ Ev.bl = Len(buf) /\ Ev.ix = idx
-        /\ \A j \in (idx+1)..Len(buf) :                                           \* LookaheadSafe
-              ~(buf[j][1] \in {"ID", "TYPEID"} /\ buf[j][2] = Ev.name)
+        /\ unsafe' = (unsafe \/ \E j \in (idx+1)..Len(buf) :                      \* LookaheadSafe (judged at End)
+                                   buf[j][1] \in {"ID", "TYPEID"} /\ buf[j][2] = Ev.name)
         /\ IF <<Ev.name, ~Ev.t>> \in stk[Len(stk)]                                \* RegisterClash
            THEN Ev.raised /\ failed' = TRUE /\ UNCHANGED stk
            ELSE ~Ev.raised /\ stk' = [stk EXCEPT ![Len(stk)] = @ \cup {<<Ev.name, Ev.t>>}] /\ UNCHANGED failed
@@ -140,6 +140,7 @@ Reg  == /\ Is("reg") /\ ~failed /\ pend = <<"none">>
 End  == /\ Is("end") /\ l = Len(T.ev)
         /\ (failed => ~Ev.ok)
         /\ (Ev.ok \/ Ev.exc \in {"ParseError", "RecursionError"})                 \* SingleErrorChannel
+        /\ (Ev.ok => ~unsafe)                                                     \* LookaheadSafe: accepted programs only
         /\ (Ev.ok => /\ brk = <<>>                                                \* AcceptedIsWellFormed
                      /\ eof /\ idx = Len(buf) - 1
                      /\ Len(stk) = 1 /\ Ev.depth = 1
@@ -148,7 +149,7 @@ End  == /\ Is("end") /\ l = Len(T.ev)
         /\ (errloc # <<>> =>                                                       \* ErrorLocExact (C11)
               LET pfx == errloc[1] \o ":" \o ToString(errloc[2]) \o ":" \o ToString(errloc[3]) \o ": "
               IN Len(Ev.msg) >= Len(pfx) /\ SubSeq(Ev.msg, 1, Len(pfx)) = pfx)
-        /\ Adv /\ UNCHANGED <<buf, idx, uses, stk, brk, bd, pend, lst, eof, failed, errloc>>
+        /\ Adv /\ UNCHANGED <<buf, idx, uses, stk, brk, bd, pend, lst, eof, failed, errloc, unsafe>>
 
 PNext == Begin \/ Push \/ Pop \/ Look \/ Tok \/ Nxt \/ Reset \/ Reg \/ End
 PSpec == PInit /\ [][PNext]_pvars
